@@ -23,22 +23,32 @@ PID = "C13"
 
 MANIFEST = dict(
     category="model_checking",
-    technique="TLC enumerates the complete abstract case space of Malformed.tla (format x mode x prefix x malformed "
-              "class x trailing; description defects x target) and validates, with TraceMalformed.tla, what the real "
-              "providers did on every rendered case against the reader state machine whose alphabet has no "
-              "Panic/Crash/Hang; byte-level mutation fuzz is checked against the outcome alphabet and prefix rule.",
+    technique="TLC enumerates the complete abstract case space of Malformed.tla (format x mode x prefix x malformed class x trailing; "
+              "description defects x target; configuration files as text: pool-schema node x value shape x yaml/json/toml with the "
+              "verdict computed by CfgSchema.tla; property files as line-token sequences; degenerate-only files with counted rewinds) "
+              "and validates, with TraceMalformed.tla, what the real providers / the real CLI config reader + engine did on every "
+              "rendered case against the reader state machine whose alphabet has no Panic/Crash/Hang/Spin; ByteEdit.tla and "
+              "LineEdit.tla compute the expected outcome of byte- and line-level edits of valid files (LineEdit: by an abstract reader "
+              "per format) and TraceByteEdit / TraceLineEdit compare; byte-level mutation fuzz is checked against the outcome "
+              "alphabet and prefix rule.",
     design_ref="DESIGN.md §4 C13",
-    text="Design level: reader machine per format/mode with invariants (prefix unchanged, no silent accept, no false "
-         "reject, streaming delivers the prefix, progress bound), exhaustive, three negative controls. Conformance: "
-         "every TLC-enumerated case is rendered and run through the real constructors/Run/Acquire (scenario: plus the "
-         "real pre/postprocessors and templater on the acquired ammo) in child processes under RLIMIT_AS; a process "
-         "death, a recovered panic or a confirmed hang is an event outside the alphabet, so the trace is rejected. "
-         "This is the right level because the property is a universal statement over input classes whose outcome "
-         "is a small relation (class x format x mode -> rejected/skipped/delivered prefix).",
-    note="Bounds: prefix <= 2 (thorough 3), trailing <= 1 (thorough 2), passes=1. Trusted: renderers/projections in "
-         "harness/cmd/vdrive/malformed_*.go and the step loop mirroring ScenarioGun.shootStep. 'All byte strings' is "
-         "only sampled (seeded fuzz); there the spec contributes just {ok,error} + prefix rule. grpc scenario "
-         "postprocessors and real network responses are not exercised (C19).")
+    text="Design level: reader machine per format/mode with invariants (prefix unchanged, no silent accept, no false reject, streaming "
+         "delivers the prefix, progress bound, every rewind is paid for by a delivery, a rejected pool is named), exhaustive, six "
+         "negative controls (+ two for LineEdit, one for ByteEdit). Conformance: every TLC-enumerated case is rendered and run through "
+         "the real constructors/Run/Acquire (scenario: plus the real pre/postprocessors and templater on the acquired ammo; "
+         "configuration text: cli.readConfig = viper + DecodeAndValidate with every plugin registered, then a real engine against a "
+         "local target) in child processes under RLIMIT_AS; a process death, a recovered panic, a confirmed hang, a run that had to "
+         "be cancelled or a provider that keeps rewinding its file is an event outside the alphabet, so the trace is rejected. This "
+         "is the right level because the property is a universal statement over input classes whose outcome is a small relation "
+         "(class x format x mode -> rejected/skipped/delivered prefix, stage of the rejection).",
+    note="Bounds: prefix <= 2 (thorough 3), trailing <= 1 (thorough 2); configuration trees in yaml (thorough: + json, toml), one "
+         "defect per file; property files of <= 2 lines (thorough 3); line edits on 2-entry files (thorough 4), one edit. Trusted: "
+         "renderers/projections in harness/cmd/vdrive/malformed_*.go (incl. the YAML/JSON/TOML serialisers of malformed_cfg.go) and "
+         "the step loop mirroring ScenarioGun.shootStep. 'All byte strings' is only sampled (seeded fuzz); there the spec contributes "
+         "just {ok,error} + prefix rule. `lax` classes (what a grammar allows but the statement does not pin, malformed data files) "
+         "decide only no-crash/no-hang and stage consistency. Not decided: polynomial slowness of third-party parsers on deep "
+         "nesting (viper key search is cubic in the depth of mappings; go-toml has no depth limit), operator chains of > 1 MB in HCL, "
+         "the grpc gun (unknown call / payload vs message type / reflection unavailable), real network responses (C19).")
 
 
 def parse_prints(r):
@@ -64,11 +74,16 @@ def obs_of(row):
     return last["ev"]
 
 
+def argstr(a):
+    """one token per parameter; a parameter that is itself a list (property-file lines) is joined with '+'"""
+    return "+".join(str(x) for x in a) if isinstance(a, list) else str(a)
+
+
 def signature(row, inv):
     if row["k"] == "fuzz":
         return "fuzz format=%s mode=%s obs=%s inv=%s" % (row["format"], row["mode"], obs_of(row), inv)
     c = row["c"]
-    arg = (" arg=" + ",".join(str(a) for a in c["arg"])) if c.get("arg") else ""
+    arg = (" arg=" + ",".join(argstr(a) for a in c["arg"])) if c.get("arg") else ""
     return "case kind=%s format=%s mode=%s cls=%s%s obs=%s inv=%s" % (c["kind"], c["format"], c["mode"], c["cls"], arg, obs_of(row), inv)
 
 
@@ -107,7 +122,8 @@ def validate(v, trace_path, timeout=900):
             raise vlib.MachineryError("driver echoed a case the specification does not enumerate: %r" % (row.get("c"),))
         bad += 1
         name = "case_%s_%s_%s%s_%s_%d_%d.json" % (row["c"]["format"], row["c"]["mode"], row["c"]["cls"],
-                                                  "".join("-" + str(a) for a in row["c"].get("arg", [])), inv, row["c"]["np"], row["c"]["nt"]) \
+                                                  re.sub(r"[^A-Za-z0-9_.+-]", "_", "".join("-" + argstr(a) for a in row["c"].get("arg", [])))[:120],
+                                                  inv, row["c"]["np"], row["c"]["nt"]) \
             if row["k"] == "case" else "fuzz_%s_%s_%s.json" % (row["format"], row["mode"], row.get("seed"))
         v.violation(signature(row, inv), describe(row, inv), replay_obj={"invariant": inv, "row": row}, replay_name=name)
     if tr.violation and not seen:
@@ -211,6 +227,62 @@ def byte_edit(v, tier, b, d):
             "sample": [{"case": rows[i]["ec"], "observed": rows[i]["obs"], "spec_expects": expect.get(case_key(rows[i]["ec"]))} for i in (7, len(rows) // 2)]}
 
 
+def line_edit(v, tier, b, d):
+    """Line-edit module (spec/LineEdit.tla): one edit operator on the LINES of a valid file, the expectation computed by
+    the module's abstract reader; quick = 2-entry files, thorough = 4-entry files; exhaustive in both."""
+    cfg = "LineEdit_exh.cfg" if tier == "thorough" else "LineEdit_q.cfg"
+    r = vlib.tlc("LineEditMC", cfg, deadlock=False, timeout=900, workers=4, heap="2g")
+    vlib.tlc_must_pass(r, cfg)
+    for neg in ("LineEdit_neg_stickydup.cfg", "LineEdit_neg_nulok.cfg"):
+        vlib.tlc_must_fail(vlib.tlc("LineEditMC", neg, deadlock=False, timeout=600, workers=2, heap="2g"), neg)
+    cases, expect = {}, {}
+    for pr in parse_prints(r):
+        cases[case_key(pr["c"])] = pr["c"]
+        expect[case_key(pr["c"])] = pr["exp"]
+    jobs = [cases[k] for k in sorted(cases)]
+    if len(jobs) < 100:
+        raise vlib.MachineryError("only %d line-edit cases exported by TLC" % len(jobs))
+    lpath, ltrace = os.path.join(d, "ledits.ndjson"), os.path.join(d, "ledit_trace.ndjson")
+    vlib.write_ndjson(lpath, jobs)
+    vlib.run_driver(b, ["malformed", "-ledits", lpath, "-out", ltrace, "-repo", vlib.REPO], timeout=1800)
+    rows = vlib.read_ndjson(ltrace)
+    if len(rows) != len(jobs):
+        raise vlib.MachineryError("driver returned %d line-edit lines for %d cases" % (len(rows), len(jobs)))
+    tr = vlib.tlc("TraceLineEdit", "TraceLineEdit.cfg", env={"VERIF_TRACE": ltrace}, cont=True, timeout=1800, workers=8, heap="4g")
+    vlib.log("TraceLineEdit: %d lines, %.1fs" % (len(rows), tr.wall))
+    if tr.error:
+        raise vlib.MachineryError("TraceLineEdit failed: %s\n%s" % (tr.kind, tr.out[-3000:]))
+    if tr.distinct != len(rows) + 1:
+        raise vlib.MachineryError("TraceLineEdit visited %d states for %d lines" % (tr.distinct, len(rows)))
+    seen = set()
+    for inv, st in tr.all_violations:
+        ln = int(st.get("l", "0"))
+        if ln < 1 or ln > len(rows) or (inv, ln) in seen:
+            continue
+        seen.add((inv, ln))
+        row = rows[ln - 1]
+        lc, obs = row["lc"], row["obs"]
+        if inv == "KnownLineEdit":
+            raise vlib.MachineryError("driver echoed a line-edit case the specification does not know: %r" % (lc,))
+        e = lc["e"]
+        v.violation("ledit format=%s mode=%s op=%s w=%s obs=%s inv=%s" % (lc["format"], lc["mode"], e["op"], e["w"], obs["res"], inv),
+                    "line edit %s(line %d, %s) of a valid %d-entry %s file (%s): result %s, %d delivered, %d leading deliveries unchanged, "
+                    "invalid at %s; LineEdit.tla expects %s (%s); %s" % (e["op"], e["i"], e["w"], lc["n"], lc["format"], lc["mode"], obs["res"],
+                                                                      obs["delivered"], obs["same"], obs["invalid_at"],
+                                                                      expect.get(case_key(lc)), inv,
+                                                                      {k: x for k, x in (row.get("info") or {}).items() if k != "file" and x}),
+                    replay_obj={"invariant": inv, "row": row},
+                    replay_name="ledit_%s_%s_%s-%d-%s.json" % (lc["format"], lc["mode"], e["op"], e["i"], e["w"]))
+    if tr.violation and not seen:
+        raise vlib.MachineryError("TraceLineEdit reports a violation that could not be located\n%s" % tr.out[-3000:])
+    kinds = {}
+    for k in cases:
+        kinds[expect[k]["res"]] = kinds.get(expect[k]["res"], 0) + 1
+    return {"states": r.distinct, "transitions": r.generated, "cases": len(jobs), "expectation_classes": kinds, "lines_rejected": len(seen),
+            "design_config": cfg, "negative_controls": ["stickydup", "nulok"],
+            "sample": [{"case": rows[i]["lc"], "observed": rows[i]["obs"], "spec_expects": expect.get(case_key(rows[i]["lc"]))} for i in (3, len(rows) // 2)]}
+
+
 def run(tier, v):
     thorough = tier == "thorough"
     # 1. design level: exhaustive over the case space; terminal states print the case list
@@ -227,9 +299,10 @@ def run(tier, v):
     if len(cases) < 300:
         raise vlib.MachineryError("only %d cases exported by TLC" % len(cases))
     # negative controls run beside the driver (they only need the spec); joined before the verdict
-    negs = ["Malformed_neg_swallow.cfg", "Malformed_neg_loseprefix.cfg", "Malformed_neg_spin.cfg", "Malformed_neg_noname.cfg"]
+    negs = ["Malformed_neg_swallow.cfg", "Malformed_neg_loseprefix.cfg", "Malformed_neg_spin.cfg", "Malformed_neg_noname.cfg",
+            "Malformed_neg_freerewind.cfg"]
     import concurrent.futures
-    pool = concurrent.futures.ThreadPoolExecutor(max_workers=4)
+    pool = concurrent.futures.ThreadPoolExecutor(max_workers=5)
     neg_jobs = [(neg, pool.submit(vlib.tlc, "MalformedMC", neg, deadlock=False, timeout=300, workers=2, heap="2g")) for neg in negs]
     # 2. M2 + M1: render and run every case through the real code
     b = vlib.harness_build()
@@ -245,6 +318,7 @@ def run(tier, v):
     spread_heavy_lines(trace)
     rows, tr, bad = validate(v, trace, timeout=3000 if thorough else 900)
     be = byte_edit(v, tier, b, d)
+    le = line_edit(v, tier, b, d)
     for neg, job in neg_jobs:
         vlib.tlc_must_fail(job.result(), neg)
     pool.shutdown()
@@ -252,7 +326,10 @@ def run(tier, v):
     fuzz_rows = [r_ for r_ in rows if r_["k"] == "fuzz"]
     if len(case_rows) != len(cases):
         raise vlib.MachineryError("driver returned %d case lines for %d cases" % (len(case_rows), len(cases)))
-    nontrivial = len({case_key(r_["c"]) for r_ in case_rows if r_["c"]["cls"] not in ("none", "d_none", "xpath_ok", "map_neg_index", "unknown_tag", "p_none")})
+    def control(c):
+        return c["cls"] in ("none", "d_none", "xpath_ok", "map_neg_index", "unknown_tag", "p_none") \
+            or (c["format"] == "cfg" and (c["arg"][-1] in ("same", "t_none")))
+    nontrivial = len({case_key(r_["c"]) for r_ in case_rows if not control(r_["c"])})
     obs = {}
     for r_ in case_rows:
         obs[obs_of(r_)] = obs.get(obs_of(r_), 0) + 1
@@ -268,12 +345,13 @@ def run(tier, v):
         samples.append({"fuzz": {k: r_.get(k) for k in ("format", "mode", "seed", "intact", "same", "res")},
                         "op": (r_.get("info") or {}).get("op")})
     cov = {
-        "states": states + be["states"], "transitions": trans + be["transitions"],
-        "traces_validated_against_impl": len(rows) + be["cases"],
+        "states": states + be["states"] + le["states"], "transitions": trans + be["transitions"] + le["transitions"],
+        "traces_validated_against_impl": len(rows) + be["cases"] + le["cases"],
         "byte_edit": be,
+        "line_edit": le,
         "samples": samples,
         "exhaustive": True,
-        "evaluations": len(rows) + be["cases"],
+        "evaluations": len(rows) + be["cases"] + le["cases"],
         "distinct_nontrivial": nontrivial,
         "rule": "M2: every case of Malformed!Cases (TLC-enumerated; one per format x mode x prefix length x class x trailing, and "
                 "per description defect x target) rendered and run through the real code; non-trivial = the case carries a "
@@ -304,6 +382,20 @@ def replay(path, v):
     b = vlib.harness_build()
     d = vlib.scratch()
     trace = os.path.join(d, "trace.ndjson")
+    if row["k"] == "edit":
+        epath = os.path.join(d, "edits.ndjson")
+        vlib.write_ndjson(epath, [row["ec"]])
+        vlib.run_driver(b, ["malformed", "-edits", epath, "-out", trace, "-repo", vlib.REPO])
+        for r_ in vlib.read_ndjson(trace):
+            print("replayed: %s -> %s" % (r_["ec"], r_["obs"]))
+        return None
+    if row["k"] == "ledit":
+        lpath = os.path.join(d, "ledits.ndjson")
+        vlib.write_ndjson(lpath, [row["lc"]])
+        vlib.run_driver(b, ["malformed", "-ledits", lpath, "-out", trace, "-repo", vlib.REPO])
+        for r_ in vlib.read_ndjson(trace):
+            print("replayed: %s -> %s" % (r_["lc"], r_["obs"]))
+        return None
     if row["k"] == "case":
         cpath = os.path.join(d, "cases.ndjson")
         vlib.write_ndjson(cpath, [row["c"]])
